@@ -15,10 +15,10 @@ FILES = ["anytree/exporter/dictexporter.py", "anytree/importer/dictimporter.py"]
 ASSUMPTIONS = ["attribute values are opaque tokens (exporter and importer only copy them); a pool of ints, floats, "
                "strings, None, booleans, nested lists and dicts is used",
                "node classes with an instance __dict__ (AnyNode, Node, a user NodeMixin class)"]
-KEYS = ["k0", "k1", "z", "a b", "päö", "id", "size", "depth", "root"]
+KEYS = ["k0", "k1", "z", "a b", "päö", "id", "size", "depth", "root", "_id", "_", "_links", "__x"]
 NPOOL = 20
 JSON_SAFE = [0, 1, 2, 3, 4, 5, 6, 7, 8, 9, 10, 11, 12, 13, 14, 15, 16, 17, 18, 19]
-AI = {"identity": "AIdentity", "sort": "ASort", "dropk0": "ADropK0"}
+AI = {"identity": "AIdentity", "sort": "ASort", "dropk0": "ADropK0", "last": "ALast"}
 CI = {"list": "CListK", "reversed": "CReversed", "droplast": "CDropLast"}
 NC = {"any": "NAny", "user": "NAny", "node": "NNode"}
 
@@ -63,13 +63,15 @@ def gen_for(tier, seed, salt, use_json):
                 h = iheight(t)
                 for ml in [None] + list(range(0, h + 3)):
                     c = {"mode": "tree", "tree": t, "cls": cls, "icls": icls, "ml": ml, "jml": None, "embed": len(cases) % 3 == 1,
-                         "aiter": rng.choice(["identity", "identity", "sort", "dropk0"]),
+                         "aiter": rng.choice(["identity", "identity", "sort", "dropk0", "last"]),
                          "citer": rng.choice(["list", "list", "reversed", "droplast"]),
+                         "lazy": rng.random() < 0.4,       # childiter returns an iterator, not a list
                          "ordered": rng.random() < 0.5}
                     if use_json:
                         c["json"] = {"custom": rng.random() < 0.5,
                                      "kwargs": rng.choice([{}, {"indent": 2, "sort_keys": True}, {"ensure_ascii": False},
-                                                           {"separators": [",", ":"]}])}
+                                                           {"separators": [",", ":"]}, {"indent": None},
+                                                           {"indent": None, "sort_keys": True}])}
                         c["jml"] = rng.choice([None, None, 0, 1, 2, h + 1])
                         if not c["json"]["custom"]:
                             c["ml"] = None
@@ -85,8 +87,8 @@ def gen_for(tier, seed, salt, use_json):
         icls = rng.choice(["any", "node"]) if cls == "node" else rng.choice(["any", "user"])
         t = attr_tree(rng, shape, "node" in (cls, icls), pool)
         c = {"mode": "tree", "tree": t, "cls": cls, "icls": icls, "ml": rng.choice([None, None, 1, 2, 3]), "jml": None,
-             "aiter": rng.choice(["identity", "sort", "dropk0"]), "citer": rng.choice(["list", "reversed", "droplast"]),
-             "ordered": rng.random() < 0.5}
+             "aiter": rng.choice(["identity", "sort", "dropk0", "last"]), "citer": rng.choice(["list", "reversed", "droplast"]),
+             "lazy": rng.random() < 0.4, "ordered": rng.random() < 0.5}
         if use_json:
             c["json"] = {"custom": True, "kwargs": rng.choice([{}, {"indent": 1}, {"ensure_ascii": False}])}
             c["jml"] = rng.choice([None, 1, 2])
